@@ -115,7 +115,7 @@ ISR_CODE = bytes((0xF5, 0x3A, COUNTER & 0xFF, COUNTER >> 8, 0x3C, 0x32, COUNTER 
 ISR_SHORT = bytes((0xFB, 0x00, 0xED, 0x4D))
 
 DEFAULT = dict(fmt='szx', machine='48K', cmio=0, python=0, t0='near', isr='long')
-ALTS = dict(fmt=['z80'], machine=['128K'], cmio=[1], python=[1], t0=['zero', 'late', 'big', 'display'], isr=['short'])
+ALTS = dict(fmt=['z80'], machine=['128K'], cmio=[1], python=[1], t0=['zero', 'late', 'big', 'display', 'huge'], isr=['short'])
 
 
 def t0_value(name, machine, seq_len):
@@ -127,6 +127,8 @@ def t0_value(name, machine, seq_len):
     if name == 'display':
         return 20000           # inside the display period: the stack (0x79xx), the counter and, on a 128K with an odd
                                # bank paged in, 0xC000-0xFFFF are contended (the program then has no HALT wait)
+    if name == 'huge':
+        return (2 ** 32 // fd + 1) * fd - 180      # the clock is beyond 2^32 (about 20 minutes of Spectrum time)
     if name == 'zero':
         return 3 * fd - 170    # a later frame
     return 16777216 - 170      # the counter passes 2^24 during the run
@@ -201,7 +203,12 @@ def run_case(cfg, seq, n_total, splits=None):
     frame = 69888 if cfg['machine'] == '48K' else 70908
     init, prog = write_init(cfg, seq, d)
     full = os.path.join(d, 'full.szx')
-    r = tools.run_tool('trace', trace_args(cfg, init, n_total, full))
+    # a snapshot file holds the frame position only: a clock beyond 2^24 / 2^32 is set on the command line of the
+    # runs that start from the initial snapshot (the resumed leg starts from whatever the mid-run file holds)
+    first = []
+    if cfg['t0'] in ('big', 'huge'):
+        first = ['--state', 'tstates={}'.format(t0_value(cfg['t0'], cfg['machine'], len(seq)))]
+    r = tools.run_tool('trace', first + trace_args(cfg, init, n_total, full))
     if r.rc:
         return [(0, ['uninterrupted run failed: {} {}'.format(r.exc, r.err[-200:])])], 1
     want = snap_state(full, frame)
@@ -210,7 +217,7 @@ def run_case(cfg, seq, n_total, splits=None):
     mid = os.path.join(d, 'mid.' + cfg['fmt'])
     split = os.path.join(d, 'split.szx')
     for n1 in (splits if splits is not None else range(1, n_total)):
-        r1 = tools.run_tool('trace', trace_args(cfg, init, n1, mid))
+        r1 = tools.run_tool('trace', first + trace_args(cfg, init, n1, mid))
         r2 = tools.run_tool('trace', trace_args(cfg, mid, n_total - n1, split))
         legs += 2
         if r1.rc or r2.rc:
@@ -246,6 +253,11 @@ def configs(d):
     # save points inside the interrupt-active window matter to each simulator/loop separately
     for py, cmio in ((1, 0), (0, 1), (1, 1)):
         cfg = dict(DEFAULT, python=py, cmio=cmio, isr='short')
+        if cfg not in seen:
+            seen.append(cfg)
+    # a clock beyond 2^32 on every simulator
+    for py, cmio in ((1, 0), (0, 1), (1, 1)):
+        cfg = dict(DEFAULT, python=py, cmio=cmio, t0='huge')
         if cfg not in seen:
             seen.append(cfg)
     # contention: the run placed inside the display period, on every simulator
